@@ -63,7 +63,7 @@ def tree_stats(path, tot):
 
 
 def validate(ctx, d, path, what, env, open_ids):
-    e = {"EXPLAIN": "0", "CHECK_LEDGER": "0", "CHECK_TREES": "1"}
+    e = {"EXPLAIN": "0", "CHECK_LEDGER": "0", "CHECK_TREES": "1", "CHECK_LOCKS": "0"}
     e.update(env)
     acc, n, detail, r = lib.tlc_validate(ctx, d, "Trace_Wallet", "Trace_Wallet.cfg", path, timeout=3000, env_extra=e)
     used = set()
@@ -171,7 +171,7 @@ def selftest(ctx):
     # cut the history before any rewind can taint it: corrupt an early event
     with open(bad, "w") as f:
         f.write("\n".join(lines[:idx] + [json.dumps(rec)] + lines[idx + 1:]) + "\n")
-    e = {"EXPLAIN": "0", "CHECK_LEDGER": "0", "CHECK_TREES": "1", "KF_STALE": "0", "KF_RETAIN": "0"}
+    e = {"EXPLAIN": "0", "CHECK_LEDGER": "0", "CHECK_TREES": "1", "CHECK_LOCKS": "0", "KF_STALE": "0", "KF_RETAIN": "0"}
     acc, n, _, _ = lib.tlc_validate(ctx, d, "Trace_Wallet", "Trace_Wallet.cfg", bad, env_extra=e)
     if acc or n != idx + 1:
         raise lib.ToolError("selftest: a wrong root verdict at event %d was not rejected there (%s, %s)" % (idx + 1, acc, n))
